@@ -25,6 +25,7 @@
 #include <stdio.h>
 #include <pthread.h>
 #include <unistd.h>
+#include <signal.h>
 #include <stdlib.h>
 #include <string.h>
 #include <stdarg.h>
@@ -226,6 +227,54 @@ static int cmp_entry(const void *a, const void *b) {
     return x->begin < y->begin ? -1 : (x->begin > y->begin ? 1 : 0);
 }
 
+/* prints the sorted body log; with_keys = 0 from the crash handler (the taskpool may be unusable) */
+static int print_log(parsec_taskpool_t *tp, int with_keys) {
+    int n = ptg_nlog;
+    if (n > PTG_MAXLOG) n = PTG_MAXLOG;
+    qsort(ptg_log, n, sizeof(ptg_entry_t), cmp_entry);
+    char buf[256];
+    int completed = 0;
+    for (int k = 0; k < n; k++) {
+        const ptg_entry_t *e = &ptg_log[k];
+        const parsec_task_class_t *tc = e->tc;
+        if (!tc) continue;
+        printf("I %s %d P", tc->name, e->again);
+        for (int i = 0; i < tc->nb_parameters; i++) printf(" %d", param_value(e, i));
+        printf(" ; L");
+        for (int i = 0; i < tc->nb_locals; i++) printf(" %d", e->locals[i]);
+        printf(" ; S %" PRId64 " %" PRId64 " ; R", e->begin, e->end);
+        for (int i = 0; i < PTG_RT_MAXFLOWS; i++) if (e->rmask & (1u << i)) printf(" %d=%" PRId64, i, e->rd[i]);
+        printf(" ; W");
+        for (int i = 0; i < PTG_RT_MAXFLOWS; i++) if (e->wmask & (1u << i)) printf(" %d=%" PRId64, i, e->wr[i]);
+        if (with_keys) {
+            /* the generated key functions, reached through the taskpool as the runtime does */
+            parsec_assignment_t as[MAX_LOCAL_COUNT];
+            memset(as, 0, sizeof(as));
+            for (int i = 0; i < tc->nb_locals; i++) as[i].value = e->locals[i];
+            const parsec_task_class_t *tc2 = tp->task_classes_array[tc->task_class_id];
+            parsec_key_t key = tc2->make_key(tp, as);
+            buf[0] = 0;
+            tc2->key_functions->key_print(buf, sizeof(buf), key, tp);
+            printf(" ; K %" PRIu64 " ; KP %s\n", (uint64_t)key, buf);
+        } else
+            printf(" ; K 0 ; KP ?\n");
+        if (!e->again) completed++;
+    }
+    return completed;
+}
+
+/* a crash of the runtime is an observation too: dump what the bodies logged so far (a task that was run
+ * twice is in there), then report the signal.  printf in a handler is not async-signal-safe; good enough here. */
+static void crash_handler(int sig) {
+    static volatile int once = 0;
+    if (once++) _exit(128 + sig);
+    signal(sig, SIG_DFL);
+    int completed = print_log(NULL, 0);
+    printf("NBTASKS %d\nEND rc=signal-%d\n", completed, sig);
+    fflush(stdout);
+    _exit(128 + sig);
+}
+
 /* one configuration: parsec_init(cores, options) … parsec_fini; prints one block */
 static int run_config(int cores, int pargc, char **pargv, int reps) {
     int rc;
@@ -248,38 +297,7 @@ static int run_config(int cores, int pargc, char **pargv, int reps) {
         if (rc != 0) { printf("END rc=wait-failed\n"); return 3; }
     }
 
-    int n = ptg_nlog;
-    qsort(ptg_log, n, sizeof(ptg_entry_t), cmp_entry);
-    char buf[256];
-    int completed = 0;
-    for (int k = 0; k < n; k++) {
-        const ptg_entry_t *e = &ptg_log[k];
-        const parsec_task_class_t *tc = e->tc;
-        printf("I %s %d P", tc->name, e->again);
-        for (int i = 0; i < tc->nb_parameters; i++) printf(" %d", param_value(e, i));
-        printf(" ; L");
-        for (int i = 0; i < tc->nb_locals; i++) printf(" %d", e->locals[i]);
-        printf(" ; S %" PRId64 " %" PRId64 " ; R", e->begin, e->end);
-        for (int i = 0; i < PTG_RT_MAXFLOWS; i++) if (e->rmask & (1u << i)) printf(" %d=%" PRId64, i, e->rd[i]);
-        printf(" ; W");
-        for (int i = 0; i < PTG_RT_MAXFLOWS; i++) if (e->wmask & (1u << i)) printf(" %d=%" PRId64, i, e->wr[i]);
-        /* the generated key functions, reached through the taskpool as the runtime does */
-        parsec_assignment_t as[MAX_LOCAL_COUNT];
-        memset(as, 0, sizeof(as));
-        for (int i = 0; i < tc->nb_locals; i++) as[i].value = e->locals[i];
-        const parsec_task_class_t *tc2 = tp->task_classes_array[tc->task_class_id];
-        parsec_key_t key = tc2->make_key(tp, as);
-        buf[0] = 0;
-        tc2->key_functions->key_print(buf, sizeof(buf), key, tp);
-        printf(" ; K %" PRIu64 " ; PR %d ; KP %s\n", (uint64_t)key, (int)e->prio, buf);
-        if (!e->again) completed++;
-    }
-    for (int k = 0; k < ptg_nsu && k < PTG_MAXLOG; k++) {      /* creation order of the startup tasks (only with PTG_RT_TRACE_STARTUP) */
-        const parsec_task_class_t *tc = ptg_su[k].tc;
-        printf("SU %s P", tc->name);
-        for (int i = 0; i < tc->nb_parameters; i++) printf(" %d", ptg_su[k].locals[tc->params[i]->context_index]);
-        printf("\n");
-    }
+    int completed = print_log(tp, 1);
     printf("NBTASKS %d\n", completed);
     printf("NBVP %d\n", parsec_vpmap_get_nb_vp());
     printf("D");
@@ -299,6 +317,7 @@ static int run_config(int cores, int pargc, char **pargv, int reps) {
 int main(int argc, char **argv) {
     int provided, reps = 1, i = 1, ncfg = 0, rc = 0;
     MPI_Init_thread(NULL, NULL, MPI_THREAD_SERIALIZED, &provided);
+    signal(SIGSEGV, crash_handler); signal(SIGBUS, crash_handler); signal(SIGABRT, crash_handler); signal(SIGFPE, crash_handler);
     while (i < argc) {
         if (!strcmp(argv[i], "--again") && i + 2 < argc) { ptg_again_seed = strtoull(argv[i + 1], NULL, 10); ptg_again_max = atoi(argv[i + 2]); i += 3; }
         else if (!strcmp(argv[i], "--reps") && i + 1 < argc) { reps = atoi(argv[i + 1]); i += 2; }
